@@ -237,6 +237,12 @@ static json table_observe(ev2::engine_library& lib, const json& a)
     return o;
 }
 
+json observe_tables(State& st, const json& a)
+{
+    if (!st.lib) return nullptr;
+    return table_observe(*st.lib, a);
+}
+
 bool dispatch_table(State& st, const std::string& op, const json& a, json& ret)
 {
     auto need_schema = [&]() {
